@@ -64,6 +64,9 @@ type Engine struct {
 	classes map[string]bool // obligation classes wanted in this run (nil: all)
 	opts    Options
 	skipObl map[string]bool
+	pwMu    sync.Mutex
+	pw      map[*ssa.Function]map[int]bool
+	pbU     map[*ssa.Function]map[string]bool
 	implMu  sync.Mutex
 	implC   map[string][]*ssa.Function
 }
@@ -124,7 +127,7 @@ func newEngine(repo string) *Engine {
 		typeIDs: map[string]int{}, strIDs: map[string]int{}, kindIDs: map[string]int{},
 		astFiles: map[string]*ast.File{}, srcCache: map[string][]byte{},
 		derived: map[string]bool{}, inlined: map[string]bool{}, externals: map[string]bool{}, invokes: map[string]bool{}, ctUsed: map[string]bool{},
-		fnByKey: map[string]*ssa.Function{}, spkgs: map[string]*ssa.Package{}, implC: map[string][]*ssa.Function{}}
+		fnByKey: map[string]*ssa.Function{}, spkgs: map[string]*ssa.Package{}, implC: map[string][]*ssa.Function{}, pw: map[*ssa.Function]map[int]bool{}, pbU: map[*ssa.Function]map[string]bool{}}
 }
 
 func (e *Engine) load(patterns []string) error {
